@@ -158,6 +158,9 @@ class _SyncUU(_MC, grpc.UnaryUnaryMultiCallable):
         data = self.ser(request)
         out = self.sim.attempt(self.path, "uu", [data], metadata, timeout, self.ch.cid)
         _sync_deliver(self.sim, out, timeout)
+        too_big = _check_size(self.ch, out)
+        if too_big:
+            raise SimRpcError(grpc.StatusCode.RESOURCE_EXHAUSTED, too_big)
         return self.de(out["reply"]), _OkCall()
 
     def __call__(self, request, timeout=None, metadata=None, credentials=None,
@@ -232,10 +235,32 @@ class _SyncSS(_MC, grpc.StreamStreamMultiCallable):
         return _SyncStream(self.sim, self.de, out, timeout)
 
 
+GRPC_DEFAULT_MAX_RECEIVE = 4 * 1024 * 1024
+
+
+def _max_recv(options):
+    """What a real channel built with these channel args would accept per message (None = the channel was handed to the
+    transport ready-made: its limits are the application's business)."""
+    if options is None:
+        return None
+    for k, v in options:
+        if k == "grpc.max_receive_message_length":
+            return None if v == -1 else int(v)
+    return GRPC_DEFAULT_MAX_RECEIVE       # gRPC ignores unknown channel args silently: the built-in 4 MiB cap applies
+
+
+def _check_size(ch, out):
+    lim = getattr(ch, "max_recv", None)
+    if lim is not None and out.get("reply") is not None and len(out["reply"]) > lim:
+        return f"Received message larger than max ({len(out['reply'])} vs. {lim})"
+    return None
+
+
 class SimChannel(grpc.Channel):
     _next = 0
 
-    def __init__(self, sim, cid=None):
+    def __init__(self, sim, cid=None, options=None):
+        self.max_recv = _max_recv(options)
         self.sim = sim
         if cid is None:
             SimChannel._next += 1
@@ -335,6 +360,9 @@ class _AioUU(_MC, aio.UnaryUnaryMultiCallable):
 
         async def run():
             await _aio_deliver(self.sim, out, timeout)
+            too_big = _check_size(self.ch, out)
+            if too_big:
+                raise SimAioRpcError(grpc.StatusCode.RESOURCE_EXHAUSTED, too_big)
             return self.de(out["reply"])
         return _AioUUCall(run())
 
@@ -447,7 +475,8 @@ class _AioSS(_MC, aio.StreamStreamMultiCallable):
 
 
 class SimAioChannel(aio.Channel):
-    def __init__(self, sim, cid=None):
+    def __init__(self, sim, cid=None, options=None):
+        self.max_recv = _max_recv(options)
         self.sim = sim
         if cid is None:
             SimChannel._next += 1
